@@ -140,14 +140,16 @@ class UDInit(SectionUnit):
     shards = 2
 
     def inputs(self, S):
-        inp = SectionUnit.inputs(self, S)
+        # (set per evaluation BEFORE building the inputs: the unit object is reused across shards in one process)
         if self.shard == 1:
             self.cls = PT + "ext_user_data.ExtUserData"
             self.with_creator = False
-            inp.pop('creatorID', None)
         else:
             self.cls = PT + "user_data.UserData"
             self.with_creator = True
+        inp = SectionUnit.inputs(self, S)
+        if self.shard == 1:
+            inp.pop('creatorID', None)
         return inp
 
     def pre(self, S, inp):
